@@ -71,7 +71,13 @@ func genStep(t *rapid.T) Step {
 		s.Rel = rapid.SampledFrom([]string{"parked", "parked", "last", "gap"}).Draw(t, "rel")
 		s.N = rapid.IntRange(16, 40).Draw(t, "n")
 	default:
-		if rapid.Bool().Draw(t, "all") {
+		if rapid.IntRange(0, 2).Draw(t, "churn") == 0 {
+			s.Op = "Churn"
+			s.Arg = 2 * rapid.IntRange(0, 31).Draw(t, "churnarg") // even: 256 changes
+			if rapid.IntRange(0, 9).Draw(t, "churnbig") == 0 {
+				s.Arg++ // odd: 65536 changes (expensive, so rare)
+			}
+		} else if rapid.Bool().Draw(t, "all") {
 			s.Op = "DeleteAll"
 		} else {
 			s.Op = "DrainAllBut"
@@ -512,6 +518,19 @@ func (e *exec[K]) mutate(st Step) error {
 			x := k - st.N/2 + j
 			if x >= 1 {
 				e.put(x)
+			}
+		}
+	case "Churn":
+		// 256 or 65536 structural changes, minus up to three (the steps around it add their own): a far-away
+		// key is put and deleted over and over. A staleness test that compares only the low bits of the
+		// tree's change counter sees "nothing happened" at exactly such a distance.
+		n := []int{256, 65536}[st.Arg%2] - (st.Arg/2)%4
+		far := 800000 + st.Arg%7
+		for j := 0; j < n; j++ {
+			if j%2 == 0 {
+				e.put(far)
+			} else {
+				e.del(far)
 			}
 		}
 	case "DrainAllBut":
